@@ -5,6 +5,7 @@ record by its next displacement, auxiliaries start at entry + aux displacement (
 in the matching struct (E-iv); names through the linked string table; get_version conditions; versym addressing.
 """
 import ast
+from sa.canon import U
 from sa.world import get_world
 from sa import elfconf, layout, expr, paths, streams, dispatch, literals, hrules
 from sa.absint import FuncV, Obj
@@ -63,7 +64,7 @@ def check_walks(ctx, w):
     ctx.ob('I-REL', f.construct, 'auxiliaries start at entry_offset + <prefix>_aux, count <prefix>_cnt', ok, got=got,
            msg='auxiliary chain must start at the entry position plus its aux displacement')
     # the advance is the last statement of the loop body, after the yield
-    ok = len(loops) == 1 and isinstance(loops[0].body[-1], ast.AugAssign) and ast.unparse(loops[0].body[-1].target) == 'entry_offset'
+    ok = len(loops) == 1 and isinstance(loops[0].body[-1], ast.AugAssign) and U(loops[0].body[-1].target) == 'entry_offset'
     ctx.ob('I-REL', f.construct, 'advance is the unconditional last step', ok)
     g = w.model.func(GV, 'GNUVersionSection.num_versions')
     got = [expr.nfs(r.value, expr.FEnv(g.node)) for r in expr.returns_of(g.node)]
